@@ -291,7 +291,7 @@ func c14Initials() []*Initial {
 }
 
 func init() {
-	registerE1("C14", &e1Config{checker: C14Checker{}, depth: [2]int{1, 2}, initials: c14Initials, noPrune: true,
+	registerE1("C14", &e1Config{checker: C14Checker{}, depth: [2]int{2, 3}, initials: c14Initials, noPrune: true,
 		frags: func() (map[string]*Fragment, []string) {
 			return mergeFrags(CoreFragments(), MultiKeyFragments()), []string{"fa", "fb", "fd", "fg", "mk4", "mk5"}
 		},
